@@ -194,6 +194,15 @@ Definition pull_bound (o : opts) (ys : list year) (pool : Z) (c : cache) (a : Z)
   if c_burned c then a <=? Z.min (o_burnout o) pool
   else a <=? year_left o ys (c_year c).
 
+(* what a calculation reads of the year records: close times and TillLastCycle (not Distributed) *)
+Definition sched (ys : list year) : list year := map (fun y => mkYear (y_close y) 0 (y_till y)) ys.
+
+(* invariant of the cache w.r.t. the year records: a cached amount is the burnout rate, or at
+   most what the cached year had left *)
+Definition cache_inv (o : opts) (ys : list year) (c : cache) : Prop :=
+  warm c = true ->
+  if c_burned c then c_amt c = o_burnout o else c_amt c <= year_left o ys (c_year c).
+
 (* RewardCumulativeStore.PullRewards *)
 Definition pull (o : opts) (bt : Z -> Z) (ys : list year) (h pool : Z) (c : cache) : cres * cache :=
   match calculate o bt ys h c with
